@@ -14,7 +14,7 @@ for p in $props; do
   conc=$(echo "$out" | grep "^VIOLATION" | grep -vc "no-failing-input-found")
   echo "seed=$id prop=$p exit=$code violations=$nv concrete=$conc | $(echo "$out" | grep "^VIOLATION" | head -2 | cut -c1-220 | tr '\n' ' ')"
 done
-git -C /repo checkout -- . 
+git -C /repo apply -R /verif/seeded/$id/patch.diff 2>/dev/null || git -C /repo checkout -- .
 # remove replay files produced by the seeded run
 for f in $(ls /verif/replays | sort); do
   echo "$before" | grep -qx "$f" || rm -f /verif/replays/$f
